@@ -292,3 +292,15 @@ Proof.
   rewrite (proj2 (as_u32_exact_iff v ltac:(lia))) by lia.
   destruct (v <? 16) eqn:E; [|lia]. lia.
 Qed.
+
+(* control.rs plus_operation: additions of schema literals *)
+Theorem plus_checked_total : forall a b, 0 <= a < 2 ^ 62 -> 0 <= b < 2 ^ 62 -> plus_checked a b = Some (a + b).
+Proof.
+  intros a b Ha Hb. unfold plus_checked, in_u64.
+  destruct ((0 <=? a) && (0 <=? b)) eqn:E; [|lia].
+  destruct ((0 <=? a + b) && (a + b <? 2 ^ 64)) eqn:F; [reflexivity|lia].
+Qed.
+
+Theorem plus_checked_refuted : exists a b a' b', in_u64 a = true /\ in_u64 b = true /\ plus_checked a b = None /\
+  in_i64 a' = true /\ in_i64 b' = true /\ plus_checked a' b' = None.
+Proof. exists 18446744073709551615, 1, (-9223372036854775808), (-1). repeat split; vm_compute; reflexivity. Qed.
